@@ -236,6 +236,28 @@ def apply_damage(job, rng, files, ecc, ents):
         note['blocks_hit'] = hit
         return note
 
+    if kind == 'over1':
+        # per block: exactly floor(parity/2) + 1 wrong symbols (one beyond the errors-only capacity), at least one of them in
+        # the stored parity, and one wrong byte in the stored hash: whatever is committed for such a block can neither rely on
+        # the hash nor lie within the decoding radius unless it is the input block itself
+        for rel in targets:
+            e = ents[rel]
+            for bi, (off, l, k, es) in enumerate(e['blocks']):
+                if es < 1 or l < 1:
+                    continue
+                toff, tl = track_pos(e, bi, 'parity')
+                w = es // 2 + 1
+                npar = min(tl, rng.randrange(1, w + 1))
+                nmsg = min(l, w - npar)
+                for x in rng.sample(range(tl), npar):
+                    ecc[toff + x] = rnd_other(rng, {ecc[toff + x], 0xFE, 0xFF, 0xFA})
+                for x in rng.sample(range(l), nmsg):
+                    files[rel][off + x] = rnd_other(rng, {files[rel][off + x]})
+                hoff, hlen_ = track_pos(e, bi, 'hash')
+                if hlen_:
+                    i = hoff + rng.randrange(hlen_)
+                    ecc[i] = rnd_other(rng, {ecc[i], 0xFE, 0xFF, 0xFA})
+        return note
     if kind in ('file_rand', 'file_burst', 'file_zero', 'file_all'):
         for rel in targets:
             f = files[rel]
